@@ -36,6 +36,7 @@ import (
 	"verifharness/hx"
 	"verifharness/jar"
 	"verifharness/pe"
+	"verifharness/pgp"
 	"verifharness/ps"
 	"verifharness/xsig"
 	"verifharness/ziprw"
@@ -55,6 +56,7 @@ var handlers = map[string]func([]string) string{
 	"APK":   apkb.Handle,
 	"APKV":  apkv.Handle,
 	"APPX":  appx.Handle,
+	"PGP":   pgp.Handle,
 	"DEB":   deb.Handle,
 	"ZIPRW": ziprw.Handle,
 	"CAB":   cab.Handle,
@@ -138,7 +140,7 @@ func forProp(prop string, g func(*bufio.Writer, uint64, string, string)) genFunc
 
 func init() {
 	// C05 (digests are what the specifications prescribe): PE image hash ops, PE checksum ops, APK merkle ops, ECDSA width ops
-	gens["C05"] = []genFunc{forProp("C05", pe.Gen), filtered(c09.Gen, "cksum", "fixpe", "fixpehex", "merkle"), filtered(c19.Gen, "ecdsa", "ecdsasign"), thinned(filtered(c19.Gen, "canon"), 4), forProp("C05", c18.MsiGen), forProp("C05", jar.Gen), forProp("C05", apkb.Gen), forProp("C05", cab.Gen), forProp("C05", appx.Gen)}
+	gens["C05"] = []genFunc{forProp("C05", pe.Gen), filtered(c09.Gen, "cksum", "fixpe", "fixpehex", "merkle"), filtered(c19.Gen, "ecdsa", "ecdsasign"), thinned(filtered(c19.Gen, "canon"), 4), forProp("C05", c18.MsiGen), forProp("C05", jar.Gen), forProp("C05", apkb.Gen), forProp("C05", cab.Gen), forProp("C05", appx.Gen), forProp("C05", pgp.Gen)}
 	gens["C18"] = append(gens["C18"], forProp("C18", c18.MsiGen))
 	for _, p := range []string{"C01", "C02", "C03", "C08", "C11"} {
 		gens[p] = append(gens[p], forProp(p, pe.Gen))
@@ -151,6 +153,7 @@ func init() {
 		}
 		if p == "C11" {
 			gens[p] = append(gens[p], c11.Gen)
+			gens[p] = append(gens[p], forProp(p, pgp.Gen))
 		}
 		if p == "C01" || p == "C02" || p == "C03" || p == "C08" {
 			gens[p] = append(gens[p], forProp(p, jar.Gen))
@@ -160,6 +163,9 @@ func init() {
 		}
 		if p == "C01" || p == "C02" {
 			gens[p] = append(gens[p], forProp(p, apkv.Gen))
+		}
+		if p == "C01" || p == "C03" || p == "C08" {
+			gens[p] = append(gens[p], forProp(p, pgp.Gen))
 		}
 		if p == "C03" || p == "C08" {
 			gens[p] = append(gens[p], forProp(p, ziprw.Gen))
